@@ -203,6 +203,15 @@ void vf::run_case(Src &s, Ctx &c)
                 }
                 CountPTC ptc(&c);
                 ptc.limit = k;
+                // a quarter of the resumed solves are preceded by the caller dropping the stored paths (decided by the already decoded k, so
+                // that saved cases keep their meaning): the status of the resumed solve must still describe what the pdef then holds
+                if (solvedBefore && k % 4 == 1)
+                {
+                    c.note("clearSolutionPaths ");
+                    c.count("history:clearSolutionPaths-before-resume");
+                    Q[cur].pdef->clearSolutionPaths();
+                    havePrev = false;
+                }
                 c.note("solve(k=%ld) ", k);
                 size_t before = Q[cur].pdef->getSolutionCount();
                 ob::PlannerStatus st;
